@@ -134,6 +134,9 @@ func eq(a, b []string) bool { return strings.Join(a, ",") == strings.Join(b, ","
 type ViewCase struct {
 	Snaps  [][]int `json:"snaps"` // member indices 1..6; self (0) is added by the harness at a generated position
 	SelfAt []int   `json:"self_at"`
+	// Activated: after the first snapshot the node activates an actor of one of its own kinds: the view
+	// and its events do not depend on whether the agent knows active actors
+	Activated bool `json:"activated,omitempty"`
 }
 
 func runView(c ViewCase) (feat map[string]int, err error) {
@@ -242,6 +245,20 @@ func runView(c ViewCase) (feat map[string]int, err error) {
 				return nil, fmt.Errorf("snapshot %d: view %v: HasKind(%q) = %v, want %v", si, setIDs(next), k, g, want)
 			}
 		}
+		if si == 0 && c.Activated {
+			onSelf := func(d cluster.ActivationDetails) *cluster.Member {
+				for _, m := range d.Members {
+					if m.ID == "self" {
+						return m
+					}
+				}
+				return nil
+			}
+			if pid := cl.Activate(kindsOf[0][0], cluster.NewActivationConfig().WithID("a1").WithSelectMemberFunc(onSelf)); pid == nil {
+				return nil, fmt.Errorf("harness: the node could not activate an actor of its own kind %q", kindsOf[0][0])
+			}
+			feat["agent-knows-an-active-actor"]++
+		}
 		if added > 0 && removed > 0 {
 			feat["adds-and-removes"]++
 		}
@@ -277,6 +294,7 @@ func TestMembershipView(t *testing.T) {
 			}), 0, 8).Draw(t, "snap"))
 			c.SelfAt = append(c.SelfAt, rapid.IntRange(0, 8).Draw(t, "selfat"))
 		}
+		c.Activated = rapid.Bool().Draw(t, "activated")
 		check(t, st, c, func() (map[string]int, error) { return runView(c) }, func(f map[string]int) bool {
 			return f["adds-and-removes"] > 0 || f["duplicate-entries"] > 0
 		})
